@@ -1,5 +1,6 @@
 """C15 workers.  mode 'table': under a given affinity mask and LOKY_MAX_CPU_COUNT evaluate cpu_count() and effective_n_jobs for (backend, n_jobs) rows.
 mode 'gate': run Parallel(n_jobs, backend) with gated tasks and report the high-water mark of simultaneously running tasks.
+mode 'gate_seq': a history of gated calls with different n_jobs in one process (executor reuse and resize).
 mode 'nest': run nested Parallel calls and report pids / thread ids / inner backends."""
 import sys, os, json, time, threading, warnings
 
@@ -79,6 +80,58 @@ def gate(job):
     return res
 
 
+def gate_seq(job):
+    """a HISTORY of calls with different n_jobs in one process (the loky executor is reused and resized; pools are rebuilt):
+    per call the high-water mark of simultaneously started tasks and the worker processes seen"""
+    warnings.simplefilter("ignore")
+    from joblib import Parallel, delayed
+    out = []
+    p_shared = None
+    import contextlib
+    ctx = contextlib.nullcontext()
+    if job.get("inner_threads"):
+        # with inner_max_num_threads fixed the arguments of the loky executor do not depend on n_jobs: the executor of the
+        # previous call is RESIZED (otherwise a change of cpus // n_jobs replaces it)
+        from joblib import parallel_config
+        ctx = parallel_config(backend="loky", inner_max_num_threads=job["inner_threads"])
+    with ctx:
+        return {"calls": _gate_seq_calls(job, out, p_shared)}
+
+
+def _gate_seq_calls(job, out, p_shared):
+    from joblib import Parallel, delayed
+    for k, nj in enumerate(job["history"]):
+        d = os.path.join(job["dir"], "c%d" % k); os.makedirs(d, exist_ok=True)
+        res = {"n_jobs": nj}
+
+        def driver(d=d, res=res):
+            last = -1; since = time.time(); t0 = time.time()
+            while time.time() - t0 < 60:
+                n = len([f for f in os.listdir(d) if f.startswith("start_")])
+                if n != last: last = n; since = time.time()
+                elif n >= 1 and time.time() - since > job.get("settle", 1.0): break
+                time.sleep(0.01)
+            res["high_water"] = last
+            res["pids_at_high_water"] = len({f.split("_")[2] for f in os.listdir(d) if f.startswith("start_")})
+            open(os.path.join(d, "gate"), "w").close()
+        th = threading.Thread(target=driver); th.start()
+        bk = {} if job.get("inner_threads") else {"backend": job["backend"]}
+        if job.get("same_object"):
+            # one Parallel object whose n_jobs attribute is changed between the calls (what estimators holding a Parallel do)
+            if p_shared is None: p_shared = Parallel(n_jobs=nj, pre_dispatch="all", **bk)
+            p_shared.n_jobs = nj; p = p_shared
+        else:
+            p = Parallel(n_jobs=nj, pre_dispatch=job.get("pre", "all"), **bk)
+        r = p(delayed(gated_task)(d, i) for i in range(job["ntasks"]))
+        th.join()
+        res["ok"] = r == list(range(job["ntasks"]))
+        if job["backend"] == "loky":
+            from joblib.externals.loky import reusable_executor as rex
+            res["executor"] = id(rex._executor); res["processes"] = len(rex._executor._processes) if rex._executor is not None else None
+        out.append(res)
+    return out
+
+
 def inner_task(x):
     return (os.getpid(), threading.get_ident())
 
@@ -108,5 +161,5 @@ def nest(job):
 
 if __name__ == "__main__":
     job = json.load(open(sys.argv[1]))
-    r = {"table": table, "table_seq": table_seq, "gate": gate, "nest": nest}[job["mode"]](job)
+    r = {"table": table, "table_seq": table_seq, "gate": gate, "gate_seq": gate_seq, "nest": nest}[job["mode"]](job)
     json.dump(r, open(sys.argv[1] + ".out", "w"))
